@@ -5,6 +5,7 @@ import (
 	"fmt"
 	"github.com/go-kid/ioc/configure/binder"
 	"math"
+	"os"
 	"reflect"
 	"strconv"
 	"strings"
@@ -1100,5 +1101,48 @@ func TestRebindHistory(t *testing.T) {
 			labels = append(labels, "rebound-after-failed-creation")
 		}
 		kit.Rec.Case(fmt.Sprintf("m=%v l=%v mutate=%v hist=%v", m, l, mut.Mutate, hist), mut.Mutate || lz.Runs > 1, labels...)
+	})
+}
+
+// ---- the process environment is not a configuration source -------------------------------------------------------
+
+func init() {
+	// variables spelled like the keys the checks of this package bind (upper case, dots as underscores), and like
+	// their parent sections: whatever they hold, the configured values are what gets bound
+	for _, k := range []string{"C17", "C17_KEY", "C17_OTHER", "C17H", "C17H_KEY", "C17H_BASE", "C17_DASHED", "C17_EMB_HOST", "C17A", "C17A_K"} {
+		os.Setenv(k, "from-the-environment")
+	}
+}
+
+// ---- values that arrive through the command-line loader ------------------------------------------------------------
+
+// TestArgsValues: --app.config=<key>=<value> supplies <value> as written, also when it contains '=' itself (a DSN,
+// a base64 token, a query string); the three binding forms agree.
+func TestArgsValues(t *testing.T) {
+	kit.Rec.Rule(rule)
+	vals := []string{"a=b", "host=db.local port=5432 sslmode=disable", "dG9rZW4=", "c2VjcmV0", "x==", "a=1&b=2", "plain", "k=v=w", "=lead"}
+	rapid.Check(t, func(t *rapid.T) {
+		v := rapid.SampledFrom(vals).Draw(t, "value")
+		other := rapid.SampledFrom(vals).Draw(t, "other")
+		obj := &struct {
+			P string `prefix:"c17a.k"`
+			V string `value:"${c17a.k}"`
+			Q string `prop:"c17a.k"`
+			O string `prefix:"c17a.o"`
+			N int    `prefix:"c17a.n"`
+		}{}
+		args := loader.NewArgsLoader([]string{"--app.config=c17a.k=" + v, "--other=ignored", "--app.config=c17a.o=" + other, "--app.config=c17a.n=8080"})
+		saved := os.Args
+		os.Args = saved[:1]
+		out := kit.RunApp(app.SetComponents(obj), app.SetConfigLoader(args))
+		os.Args = saved
+		desc := fmt.Sprintf("args value %q / %q", v, other)
+		if !out.OK() {
+			t.Fatalf("C17: %s: start failed: %v", desc, out)
+		}
+		if obj.P != v || obj.V != v || obj.Q != v || obj.O != other || obj.N != 8080 {
+			t.Fatalf("C17: %s: bound prefix=%q value=%q prop=%q other=%q n=%d", desc, obj.P, obj.V, obj.Q, obj.O, obj.N)
+		}
+		kit.Rec.Case(desc, strings.Contains(v, "="), "args-loader-value")
 	})
 }
